@@ -69,8 +69,8 @@ def rule_cond_unsigned(rep, fb, floor=1, name="SIGN.cond-unsigned"):
 
 
 def rule_union_alternatives(rep, fb, floor=10, name="BUILDER.union-alternatives"):
-    r = rep.rule(name, "every place where UnionBuilder adds an alternative (contents_.push_back) is preceded, in the same block, by a test of contents_.size() that throws: tags and current_ are 8-bit, "
-                 "so a 129th alternative wraps to a negative tag and indexes contents_ out of bounds", floor=floor)
+    r = rep.rule(name, "every place where UnionBuilder adds an alternative (contents_.push_back) is preceded, in the same block, by a test of contents_.size() against kMaxInt8 that throws: tags and current_ are "
+                 "8-bit and UnionArray itself supports kMaxInt8 = 127 contents (a literal 128 let one alternative too many in: every snapshot of the builder then raised)", floor=floor)
     fs = [f for f in fb.lib_funcs(inst=False) if (f.get("cls") or "") == "UnionBuilder"]
     if len(fs) < 15:
         raise AnalysisError("UnionBuilder methods not found")
@@ -83,7 +83,7 @@ def rule_union_alternatives(rep, fb, floor=10, name="BUILDER.union-alternatives"
                 continue
             for m in find_all((s,), lambda k: k[0] == "mcall" and k[1] == "push_back" and k[3] == ("member", ("this",), "contents_")):
                 n += 1
-                guard = any(p[0] == "if" and "contents_" in repr(p[1]) and find_all((p[1],), lambda k: k[0] == "mcall" and k[1] == "size") and find_all(p[2], lambda k: k[0] == "throw") for p in stmts[:i])
+                guard = any(p[0] == "if" and "contents_" in repr(p[1]) and "kMaxInt8" in repr(p[1]) and find_all((p[1],), lambda k: k[0] == "mcall" and k[1] == "size") and find_all(p[2], lambda k: k[0] == "throw") for p in stmts[:i])
                 r.check(guard, "%s#push_back%d" % (cur["qual"], n), "%s:%d" % (cur["file"], m[-1] if isinstance(m[-1], int) else cur["line"]), "%s adds an alternative without checking that the 8-bit tag can still number it" % cur["qual"], detail="size guard that throws")
     for f in fs:
         cur = f
@@ -678,4 +678,136 @@ def rule_forth_depth_abs(rep, fb, floor=4, name="FORTH.loop-depth-abs"):
                     "%s compares the sign-encoded do_recursion_depth() with recursion_current_depth_" % f["qual"], detail="abs accessor")
     if n < 4:
         raise AnalysisError("ForthMachine.cpp: only %d comparisons of the loop owner depth found" % n)
+    return r.done()
+
+
+# ------------------------------------------------------------------------------------------------
+# C library calls that answer with NULL
+
+_NULLABLE_LIBC = ("gmtime", "localtime", "fopen", "dlopen", "dlsym", "getenv", "strchr", "strstr", "strrchr", "memchr", "tmpfile", "popen")
+
+
+def rule_libc_null(rep, fb, floor=6, name="NULL.libc-result"):
+    r = rep.rule(name, "the result of a C library call that answers failure with NULL (gmtime, localtime, fopen, dlopen, dlsym, getenv, strchr, ...) is bound to a local that the function compares with null "
+                 "(or tests as a condition) - it is never handed straight to another call: gmtime(NULL-able) inside strftime(...) crashed for NaT and for instants outside the calendar's range", floor=floor)
+    from .binding import lifted
+    seen = set()
+    n = 0
+    for f in lifted(fb, with_lib=True):
+        calls = find_all(f["body"], lambda k: k[0] == "call" and k[1][0] == "fn" and str(k[1][1]).split("::")[-1] in _NULLABLE_LIBC)
+        for c in calls:
+            if id(c) in seen:
+                continue
+            seen.add(id(c))
+            n += 1
+            fn = str(c[1][1]).split("::")[-1]
+            # bound to a local?
+            binders = [d for d in find_all(f["body"], lambda k: (k[0] == "decl" and k[3] is not None and find_all((k[3],), lambda q: q is c)) or (k[0] == "assign" and k[1][0] == "var" and find_all((k[2],), lambda q: q is c)))]
+            ok = False
+            why = "result used directly"
+            if binders:
+                b = binders[0]
+                v = b[1] if b[0] == "decl" else b[1][1]
+                tested = find_all(f["body"], lambda k: (k[0] == "bin" and k[1] in ("==", "!=") and ("var", v) in (k[2], k[3]) and (("const", None) in (k[2], k[3]) or "nullptr" in repr(k) or ("const", 0) in (k[2], k[3])))
+                                  or (k[0] == "un" and k[1] == "!" and k[2] == ("var", v)) or (k[0] in ("if", "while") and k[1] == ("var", v)) or (k[0] == "cond" and k[1] == ("var", v)))
+                ok = bool(tested)
+                why = "bound to `%s`, %s" % (v, "tested against null" if ok else "never tested")
+            r.check(ok, "%s#%s%d" % (f["qual"], fn, n), "%s:%d" % (f["file"], c[-1] if isinstance(c[-1], int) else f["line"]), "%s: the result of %s() is %s" % (f["qual"], fn, why), detail=why)
+    return r.done()
+
+
+# ------------------------------------------------------------------------------------------------
+# the positions skipped so far travel down with the recursion
+
+def rule_shifts_handed_down(rep, fb, floor=4, name="SHIFTS.handed-down"):
+    r = rep.rule(name, "in reduce_next / argsort_next, a branch that builds its own `nextshifts` for the recursive call also reads the `shifts` it was given (adds them in, or tests their length): "
+                 "`shifts` says how many positions were skipped above (missing lists, shorter lists) and the positions argmin / argmax / argsort report are offset by them; a branch that "
+                 "rebuilds the vector from this level alone loses what the levels above counted", floor=floor)
+    n = 0
+    for f in fb.lib_funcs(inst=False):
+        if f["name"] not in ("reduce_next", "argsort_next") or "shifts" not in [p[0] for p in f["params"]]:
+            continue
+
+        def onblock(stmts, f=f):
+            nonlocal n
+            decl = [s for s in stmts if s[0] == "decl" and s[1] == "nextshifts"]
+            if not decl:
+                return
+            # is this nextshifts filled (a kernel call or setitem) and handed to the recursion?
+            filled = find_all(stmts, lambda k: (k[0] == "call" and find_all(k[2], lambda q: q[0] == "mcall" and q[1] == "data" and q[3] == ("var", "nextshifts")))
+                              or (k[0] == "mcall" and k[1] == "setitem_at_nowrap" and k[3] == ("var", "nextshifts")))
+            if not filled:
+                return
+            n += 1
+            reads = find_all(stmts, lambda k: k == ("var", "shifts"))
+            r.check(bool(reads), "%s#nextshifts%d" % (f["qual"], n), "%s:%d" % (f["file"], decl[0][-1] if isinstance(decl[0][-1], int) else f["line"]),
+                    "%s fills a fresh nextshifts for the recursive call without reading the shifts it was handed" % f["qual"], detail="shifts read")
+        cs.each_block(f["body"], onblock)
+    return r.done()
+
+
+# ------------------------------------------------------------------------------------------------
+# every mergeable looks through a lazy operand
+
+def rule_mergeable_unwraps(rep, fb, floor=8, name="VIRTUAL.mergeable-unwraps"):
+    r = rep.rule(name, "the `mergeable(other, mergebool)` of every node class that decides by the other's class or parameters first looks through a VirtualArray (`if (VirtualArray* raw = dynamic_cast<..>(other.get())) "
+                 "return mergeable(raw->array(), mergebool);`): whether two arrays may be merged must not depend on one of them being lazy; classes that delegate outright (to content_, to array()) or "
+                 "answer unconditionally are exempt", floor=floor)
+    n = 0
+    for f in fb.lib_funcs(inst=False):
+        if f["name"] != "mergeable" or not f.get("cls") or len(f["params"]) != 2:
+            continue
+        body = f["body"]
+        # delegates or constant answers
+        if len(body) == 1 and body[0][0] in ("return", "throw"):
+            continue
+        other = f["params"][0][0]
+        decides = find_all(body, lambda k: (k[0] == "cast" and k[1] == "dynamic" and find_all((k[3],), lambda q: q == ("var", other))) or (k[0] == "mcall" and k[1] in ("parameters", "parameter_equals") and find_all((k[3],), lambda q: q == ("var", other))))
+        if not decides:
+            continue
+        n += 1
+        unwrap = find_all(body, lambda k: k[0] == "if" and k[1][0] == "declcond" and "VirtualArray" in str(k[1][2]) and find_all(k[2], lambda q: q[0] == "mcall" and q[1] == "mergeable"))
+        r.check(bool(unwrap), f["qual"], "%s:%d" % (f["file"], f["line"]), "%s decides by the class or parameters of `%s` without looking through a VirtualArray first" % (f["qual"], other), detail="virtual operand unwrapped")
+    if n < 8:
+        raise AnalysisError("only %d deciding mergeable implementations found" % n)
+    return r.done()
+
+
+# ------------------------------------------------------------------------------------------------
+# a RegularArray whose size may be 0 knows its own length
+
+_ZEROS_LITERAL_OK = {
+    "Content::getitem": "the top-level wrapper: one row holding the whole array",
+    "getitem_next_missing_jagged": "applied to the top-level wrapper only (`that` has length 1): one row",
+    "IndexedArrayOf::sort_next": "a wrapper of size parents_length that is only used to carry the None positions; its zeros_length is never read (size 0 means no parents)",
+    "IndexedArrayOf::argsort_next": "as sort_next",
+    "RegularType::empty": "the empty array of a type has length 0 by definition",
+}
+
+
+def rule_regular_zeros_length(rep, fb, floor=3, name="REGULAR.zeros-length"):
+    r = rep.rule(name, "a RegularArray constructed in libawkward with a size that is not a literal gets its zeros_length (the length it has when the size is 0) from a variable or expression that counts rows, "
+                 "not from the literals 0 or 1: an index array of length 0 applied to n rows must give n empty rows ([[1,2],[3,4],[5,6]][:, []] is [[],[],[]]); the five functions that legitimately wrap exactly "
+                 "one row (or none) are tabled", floor=floor)
+    n = 0
+    for f in fb.lib_funcs(inst=False):
+        k = 0
+        for m in find_all(f["body"], lambda q: q[0] in ("make", "ctor") and str(q[1]) == "RegularArray" and len(q[2]) >= 5):
+            size, zl = m[2][3], m[2][4]
+            while zl[0] in ("cast", "widen", "narrow"):
+                zl = zl[3]
+            if size[0] == "const":
+                continue
+            n += 1
+            k += 1
+            if zl[0] == "const":
+                if f["qual"] in _ZEROS_LITERAL_OK:
+                    r.excepted("%s#%d" % (f["qual"], k), _ZEROS_LITERAL_OK[f["qual"]])
+                else:
+                    r.fail("%s#%d" % (f["qual"], k), "%s:%d" % (f["file"], m[-1] if isinstance(m[-1], int) else f["line"]),
+                           "%s builds a RegularArray of variable size with the literal zeros_length %r: when the size is 0 the number of rows is lost" % (f["qual"], zl[1]))
+            else:
+                r.ok("%s#%d" % (f["qual"], k), "zeros_length from an expression")
+    if n < 10:
+        raise AnalysisError("only %d RegularArray constructions with a variable size found" % n)
     return r.done()
